@@ -121,6 +121,8 @@ def decoder():
       $foo-bar#00
     or
       +
+    or
+      -
 
     This function is a generator object which can be paused in the middle.
     """
@@ -133,14 +135,17 @@ def decoder():
             while True:
                 byte = yield
                 res.extend(byte)
-                if res[-1] == ord("#") and res[-2] != ord("'"):
+                # '#' is escaped inside packet data, so this is the end:
+                if res[-1] == ord("#"):
                     byte = yield
                     res.extend(byte)
                     byte = yield
                     res.extend(byte)
-                    byte = yield res.decode("ascii")
+                    # latin-1: line noise must result in a nack, not in
+                    # a dead decoder
+                    byte = yield res.decode("latin-1")
                     break
-        elif byte == b"+":
+        elif byte in (b"+", b"-"):
             byte = yield byte.decode("ascii")
         else:
             if not isinstance(byte, bytes):
